@@ -33,4 +33,7 @@ def check(model, tier):
     from ..rules import foldeval as _foldeval
 
     _foldeval.r13_5_folding(ctx)
+    from ..rules.foundation import run_foundation
+
+    run_foundation(ctx, "13")
     return run
